@@ -25,6 +25,9 @@ type sent struct {
 }
 
 // sendRun seals the mix starting from the preset counter and returns the frames.
+// senderIsKXServer selects which side of the key exchange the sending router was.
+var senderIsKXServer bool
+
 func sendRun(regl uint32, mix string) (frames []sent, b *kit.Node, sb *state.Session, sa *state.Session) {
 	a, err := kit.NewNode(kit.NodeOpts{Name: "A", ID: pool[0], StateOnly: true})
 	if err != nil {
@@ -34,7 +37,12 @@ func sendRun(regl uint32, mix string) (frames []sent, b *kit.Node, sb *state.Ses
 	if err != nil {
 		panic(err)
 	}
-	if err := kit.KeySessions(a, b); err != nil {
+	if senderIsKXServer {
+		err = kit.KeySessions(b, a)
+	} else {
+		err = kit.KeySessions(a, b)
+	}
+	if err != nil {
 		panic(err)
 	}
 	sa = a.State().GetSession(pool[1].IP)
@@ -106,108 +114,111 @@ func runSeqTier(t *testing.T, rep *kit.Report, env kit.Env) {
 	var evals, nontrivial, transitions int64
 	states := map[string]bool{}
 	caseNo := 0
-	for off := -span; off <= span; off++ {
-		regl := uint32(int64(0xFFFFFFFF) + int64(off) - int64(mixLen/2))
-		for _, mix := range mixes {
-			caseNo++
-			if !env.Mine(caseNo) {
-				continue
-			}
-			// ---- in-order delivery.
-			frames, b, sb, sa := sendRun(regl, mix)
-			evals++
-			desc := fmt.Sprintf("regular counter preset to %#x, mix %s", regl, mix)
-			seen := map[string]bool{}
-			crossed := false
-			for i, f := range frames {
-				if f.err != nil {
-					rep.Violate("seq/seal-failed", fmt.Sprintf("Seal failed: %v; %s", f.err, desc), desc)
+	for _, role := range []bool{false, true} {
+		senderIsKXServer = role
+		for off := -span; off <= span; off++ {
+			regl := uint32(int64(0xFFFFFFFF) + int64(off) - int64(mixLen/2))
+			for _, mix := range mixes {
+				caseNo++
+				if !env.Mine(caseNo) {
 					continue
 				}
-				if f.epoch == 1 {
-					crossed = true
-				}
-				k := fmt.Sprintf("%d/%c/%d", f.epoch, f.kind, f.seq)
-				if seen[k] {
-					rep.Violate("seq/sequence-number-reused", fmt.Sprintf("frame %d reuses sequence number %d of class %c under one key; %s", i, f.seq, f.kind, desc), desc)
-				}
-				seen[k] = true
-				if f.seq == 0 {
-					rep.Violate("seq/zero-sequence-number", "a frame was sealed with sequence number 0; "+desc, desc)
-				}
-				if err := unsealAt(b, sb, f.wire); err != nil {
-					rep.Violate("seq/in-order-rejected", fmt.Sprintf("frame %d (%c seq %d epoch %d) delivered in order does not unseal: %v; %s", i, f.kind, f.seq, f.epoch, err, desc), map[string]any{"regl": regl, "mix": mix, "frame": i})
-				}
-				transitions++
-				// replay must be rejected.
-				if err := unsealAt(b, sb, f.wire); err == nil {
-					rep.Violate("seq/replay-accepted", fmt.Sprintf("frame %d accepted twice; %s", i, desc), desc)
-				}
-			}
-			if crossed {
-				nontrivial++
-				ha := &state.EncryptionSessionTestHelper{EncryptionSession: sa.Encryption()}
-				hb := &state.EncryptionSessionTestHelper{EncryptionSession: sb.Encryption()}
-				if string(ha.OutKey()) != string(hb.InKey()) {
-					rep.Violate("seq/keys-out-of-sync", "after the wrap the sender's out key differs from the receiver's in key; "+desc, desc)
-				}
-				// priority sequence restarted on both sides: a fresh priority frame must unseal.
-				post, _, _, _ := sendRunContinue(sa, b, sb)
-				if post != nil {
-					rep.Violate("seq/post-wrap-priority-rejected", fmt.Sprintf("a priority frame sealed after the wrap does not unseal: %v; %s", post, desc), desc)
-				}
-				// frames of the previous key must no longer unseal.
+				// ---- in-order delivery.
+				frames, b, sb, sa := sendRun(regl, mix)
+				evals++
+				desc := fmt.Sprintf("regular counter preset to %#x, mix %s, sender was key-exchange server=%v", regl, mix, senderIsKXServer)
+				seen := map[string]bool{}
+				crossed := false
 				for i, f := range frames {
-					if f.epoch == 0 && f.err == nil {
-						if err := unsealAt(b, sb, f.wire); err == nil {
-							rep.Violate("seq/old-key-frame-accepted", fmt.Sprintf("frame %d sealed under the previous key unsealed after the switch; %s", i, desc), desc)
+					if f.err != nil {
+						rep.Violate("seq/seal-failed", fmt.Sprintf("Seal failed: %v; %s", f.err, desc), desc)
+						continue
+					}
+					if f.epoch == 1 {
+						crossed = true
+					}
+					k := fmt.Sprintf("%d/%c/%d", f.epoch, f.kind, f.seq)
+					if seen[k] {
+						rep.Violate("seq/sequence-number-reused", fmt.Sprintf("frame %d reuses sequence number %d of class %c under one key; %s", i, f.seq, f.kind, desc), desc)
+					}
+					seen[k] = true
+					if f.seq == 0 {
+						rep.Violate("seq/zero-sequence-number", "a frame was sealed with sequence number 0; "+desc, desc)
+					}
+					if err := unsealAt(b, sb, f.wire); err != nil {
+						rep.Violate("seq/in-order-rejected", fmt.Sprintf("frame %d (%c seq %d epoch %d) delivered in order does not unseal: %v; %s", i, f.kind, f.seq, f.epoch, err, desc), map[string]any{"regl": regl, "mix": mix, "frame": i})
+					}
+					transitions++
+					// replay must be rejected.
+					if err := unsealAt(b, sb, f.wire); err == nil {
+						rep.Violate("seq/replay-accepted", fmt.Sprintf("frame %d accepted twice; %s", i, desc), desc)
+					}
+				}
+				if crossed {
+					nontrivial++
+					ha := &state.EncryptionSessionTestHelper{EncryptionSession: sa.Encryption()}
+					hb := &state.EncryptionSessionTestHelper{EncryptionSession: sb.Encryption()}
+					if string(ha.OutKey()) != string(hb.InKey()) {
+						rep.Violate("seq/keys-out-of-sync", "after the wrap the sender's out key differs from the receiver's in key; "+desc, desc)
+					}
+					// priority sequence restarted on both sides: a fresh priority frame must unseal.
+					post, _, _, _ := sendRunContinue(sa, b, sb)
+					if post != nil {
+						rep.Violate("seq/post-wrap-priority-rejected", fmt.Sprintf("a priority frame sealed after the wrap does not unseal: %v; %s", post, desc), desc)
+					}
+					// frames of the previous key must no longer unseal.
+					for i, f := range frames {
+						if f.epoch == 0 && f.err == nil {
+							if err := unsealAt(b, sb, f.wire); err == nil {
+								rep.Violate("seq/old-key-frame-accepted", fmt.Sprintf("frame %d sealed under the previous key unsealed after the switch; %s", i, desc), desc)
+							}
 						}
 					}
 				}
-			}
-			states[fmt.Sprintf("%v/%d", crossed, len(seen))] = true
-			rep.Outcome(fmt.Sprintf("in-order/crossed-wrap=%v", crossed))
+				states[fmt.Sprintf("%v/%d", crossed, len(seen))] = true
+				rep.Outcome(fmt.Sprintf("in-order/crossed-wrap=%v", crossed))
 
-			// ---- bounded reorderings (only for regular-only and alternating mixes to keep the product finite).
-			if mix != mixes[0] && mix != "RPRPRP"[:mixLen] && mix != "RRPRR"+"R"[:mixLen-5] {
-				continue
-			}
-			perms := permutations(len(frames), maxDisp)
-			for _, perm := range perms {
-				frames, b, sb, _ := sendRun(regl, mix)
-				evals++
-				nontrivial++
-				epochNow := 0
-				accepted := map[int]bool{}
-				for _, idx := range perm {
-					f := frames[idx]
-					if f.err != nil {
-						continue
-					}
-					err := unsealAt(b, sb, f.wire)
-					transitions++
-					// reference receiver with explicit epoch.
-					if f.kind == 'R' && f.epoch == 1 {
-						epochNow = 1
-					}
-					must := f.epoch == epochNow && !accepted[idx]
-					if f.kind == 'P' && f.epoch == 1 && epochNow == 0 {
-						must = false
-					}
-					switch {
-					case err == nil && accepted[idx]:
-						rep.Violate("seq/reorder/accepted-twice", fmt.Sprintf("frame %d accepted twice under permutation %v; %s", idx, perm, desc), desc)
-					case err == nil && f.epoch != epochNow:
-						rep.Violate("seq/reorder/wrong-epoch-accepted", fmt.Sprintf("frame %d of key epoch %d accepted while the receiver is in epoch %d; permutation %v; %s", idx, f.epoch, epochNow, perm, desc), desc)
-					case err != nil && must && withinWindow(frames, perm, idx):
-						rep.Violate("seq/reorder/in-window-rejected", fmt.Sprintf("frame %d (%c seq %d epoch %d) rejected (%v) although in the receiver's epoch and window; permutation %v; %s", idx, f.kind, f.seq, f.epoch, err, perm, desc), map[string]any{"regl": regl, "mix": mix, "perm": perm})
-					}
-					if err == nil {
-						accepted[idx] = true
+				// ---- bounded reorderings (only for regular-only and alternating mixes to keep the product finite).
+				if mix != mixes[0] && mix != "RPRPRP"[:mixLen] && mix != "RRPRR"+"R"[:mixLen-5] {
+					continue
+				}
+				perms := permutations(len(frames), maxDisp)
+				for _, perm := range perms {
+					frames, b, sb, _ := sendRun(regl, mix)
+					evals++
+					nontrivial++
+					epochNow := 0
+					accepted := map[int]bool{}
+					for _, idx := range perm {
+						f := frames[idx]
+						if f.err != nil {
+							continue
+						}
+						err := unsealAt(b, sb, f.wire)
+						transitions++
+						// reference receiver with explicit epoch.
+						if f.kind == 'R' && f.epoch == 1 {
+							epochNow = 1
+						}
+						must := f.epoch == epochNow && !accepted[idx]
+						if f.kind == 'P' && f.epoch == 1 && epochNow == 0 {
+							must = false
+						}
+						switch {
+						case err == nil && accepted[idx]:
+							rep.Violate("seq/reorder/accepted-twice", fmt.Sprintf("frame %d accepted twice under permutation %v; %s", idx, perm, desc), desc)
+						case err == nil && f.epoch != epochNow:
+							rep.Violate("seq/reorder/wrong-epoch-accepted", fmt.Sprintf("frame %d of key epoch %d accepted while the receiver is in epoch %d; permutation %v; %s", idx, f.epoch, epochNow, perm, desc), desc)
+						case err != nil && must && withinWindow(frames, perm, idx):
+							rep.Violate("seq/reorder/in-window-rejected", fmt.Sprintf("frame %d (%c seq %d epoch %d) rejected (%v) although in the receiver's epoch and window; permutation %v; %s", idx, f.kind, f.seq, f.epoch, err, perm, desc), map[string]any{"regl": regl, "mix": mix, "perm": perm})
+						}
+						if err == nil {
+							accepted[idx] = true
+						}
 					}
 				}
+				rep.Outcome("reordered")
 			}
-			rep.Outcome("reordered")
 		}
 	}
 	rep.Add(evals, nontrivial, int64(len(states)), transitions)
@@ -269,7 +280,7 @@ func permutations(n, d int) [][]int {
 func TestC15(t *testing.T) {
 	env := kit.GetEnv()
 	rep := kit.NewReport("C15", env)
-	rep.Rule = "(a) controlled scheduler: 2-3 threads x 1-2 real Seal calls (regular / priority end-to-end frames, link frames) on ONE shared session with the out counters preset to {5, 2^32-3, 2^32-2, 2^32-1}; scheduling points at every Mutex, atomic and Pool operation of the state and frame packages (imports rewritten to shims); ALL schedules with at most B preemptions (iterative preemption bounding); per execution: no two frames of a class share (key, sequence number), every frame unseals at the receiver when delivered in (epoch, sequence) order, no deadlock/panic; (b) sequential: regular counter presets 2^32-S..2^32+S x all {R,P} mixes of length L sealed by the real sender and delivered in order (all must unseal, replays rejected, after the wrap keys in sync, fresh priority frame unseals, old-key frames rejected) and under every permutation with displacement <= D for selected mixes, against a reference receiver with an explicit key epoch; non-trivial = schedules (a) and wrap-crossing or reordered runs (b); states (a) = distinct assignments of sequence numbers to threads observed"
+	rep.Rule = "(a) controlled scheduler: 2-3 threads x 1-2 real Seal calls (regular / priority end-to-end frames, link frames) on ONE shared session with the out counters preset to {5, 2^32-3, 2^32-2, 2^32-1}; scheduling points at every Mutex, atomic and Pool operation of the state and frame packages (imports rewritten to shims); ALL schedules with at most B preemptions (iterative preemption bounding); per execution: no two frames of a class share (key, sequence number), every frame unseals at the receiver when delivered in (epoch, sequence) order, no deadlock/panic; (b) sequential, for both key-exchange roles of the sender: regular counter presets 2^32-S..2^32+S x all {R,P} mixes of length L sealed by the real sender and delivered in order (all must unseal, replays rejected, after the wrap keys in sync, fresh priority frame unseals, old-key frames rejected) and under every permutation with displacement <= D for selected mixes, against a reference receiver with an explicit key epoch; non-trivial = schedules (a) and wrap-crossing or reordered runs (b); states (a) = distinct assignments of sequence numbers to threads observed"
 	rep.Assumptions = []string{
 		"scheduling points are the synchronisation operations of the state and frame packages; unsynchronised accesses between them would need a separate free-running race-detector pass (supporting evidence only)",
 		"the receiver is driven sequentially; delivery across the key switch is in (epoch, sequence) order because the statement does not promise cross-epoch reordering",
